@@ -606,8 +606,14 @@ def finish_parent(mod, pid, tier, seed, frags, problems, inconclusive_shards,
             lines.append("HARNESS-ERROR property=%s too few non-trivial cases "
                          "(evaluations=%d distinct_nontrivial=%d floor=%d)" % (
                              pid, ev, distinct, floor))
-    os.makedirs(os.path.join(ROOT, "evidence"), exist_ok=True)
-    ep = os.path.join(ROOT, "evidence", pid + ".json")
+    # runs against a scratch copy of the repository (sensitivity experiments,
+    # VERIF_REPO) or on part of a property (--kind) must not replace the
+    # evidence of the real check
+    edir = "evidence"
+    if os.environ.get("VERIF_REPO") or partial:
+        edir = os.path.join("replays", "_scratch_evidence")
+    os.makedirs(os.path.join(ROOT, edir), exist_ok=True)
+    ep = os.path.join(ROOT, edir, pid + ".json")
     err = validate_evidence(evidence)
     if err and rc == 0:
         rc = 2
